@@ -10,7 +10,7 @@ RULE = ('random trees (distinct keys per object; distinct after ASCII folding wh
         'non-trivial = distinct pair that is not (NULL, x)')
 ASSUMPTIONS = ['C locale (tolower)', 'hand-written transliteration validated by this differential run', 'python float arithmetic is IEEE binary64 (used by the verdict)']
 EPS = 2.220446049250313e-16
-CKEYS = ['a', 'b', 'c', 'key', 'K2', 'x y', '', 'é', 'zz', 'q']
+CKEYS = ['a', 'b', 'c', 'key', 'K2', 'x y', '', 'é', 'zz', 'q', 'a[0]', 'k_1', '@', 'z^', 'Z\\']
 
 def num_eq(a, b):
     a = float(a); b = float(b)
@@ -66,8 +66,15 @@ def mutate(v, rng, cs):
     walk(v, lambda nv: box.__setitem__(0, nv))
     x, setter = rng.choice(nodes)
     if isinstance(x, Obj) and x and rng.random() < 0.7:
-        k = rng.randrange(7 if cs else 5); i = rng.randrange(len(x))
-        if k >= 5:
+        k = rng.randrange(8 if cs else 6); i = rng.randrange(len(x))
+        if k == 5 and x[i][0]:
+            # flip bit 0x20 of one character of a key: a case change for letters, a DIFFERENT key for punctuation ([ vs {, @ vs `, ^ vs ~, _ vs DEL)
+            kk = x[i][0]; j = rng.randrange(len(kk)); ch = ord(kk[j])
+            nk = kk[:j] + (chr(ch ^ 0x20) if 0x40 <= ch <= 0x7f else kk[j] + '{') + kk[j + 1:]
+            if fold(nk, cs) not in [fold(k2, cs) for k2, _ in x]: x[i] = (nk, x[i][1])
+            else: x[i] = (kk + 'x', x[i][1])
+        elif k == 5: x[i] = ('[', x[i][1])
+        elif k >= 6:
             # case-sensitive mode only: add a member whose key differs from an existing one only by ASCII case
             nk = x[i][0].swapcase()
             if nk != x[i][0] and nk not in [kk for kk, _ in x]: x.append((nk, copy.deepcopy(x[i][1]) if k == 5 else 7))
@@ -137,6 +144,13 @@ def generate(ctx):
     for v in [None, 1, Invalid(), Raw('x'), 'x', Obj(), []]:
         add('NULLARG', v, 1, False, 'null-arg'); add(v, 'NULLARG', 1, False, 'null-arg'); add(v, Invalid(), 1, False, 'invalid')
         add(Invalid(), Invalid(), 1, True, 'invalid-same')
+    # exhaustive sweep over the case split of the ASCII fold: every key byte against its 0x20-flipped twin
+    for c in range(0x21, 0x7f):
+        for pre in ('', 'k'):
+            k1 = pre + chr(c); k2 = pre + chr(c ^ 0x20)
+            if c ^ 0x20 < 0x21 or c ^ 0x20 > 0x7e: continue
+            for cs in (0, 1):
+                add(Obj([(k1, 1)]), Obj([(k2, 1)]), cs, False, 'fold-sweep')
     specials = [float('inf'), float('-inf'), float('nan'), 1.7976931348623157e308, 0.0, -0.0, 5e-324, 1.0, 1.0000000000000002, 0.9999999999999999, 1e308, 2.2250738585072014e-308, 4503599627370496.0, 4503599627370497.0]
     for x in specials:
         for y in specials:
